@@ -153,12 +153,20 @@ def render_graph(rng, g):
     n = len(g)
     paths = ["%sf%d.asm" % (rng.choice(DIRS), k + 1) for k in range(n)]
     files, texts = [], {}
+    guarded = render_graph.guarded = []
     for k, f in enumerate(g):
         incs = [{"to": t, "rel": spell(rng, paths[k], paths[t - 1])} for t in f["incs"]]
         # a third of the files leave out some of their markers: adjacent #include lines, empty files
         mute = [i for i in range(len(incs) + 1) if rng.random() < 0.5] if rng.random() < 0.33 else []
         lines = [] if 0 in mute else ["#d8 %d" % (16 * (k + 1))]
         for i, inc in enumerate(incs):
+            if rng.random() < 0.03:
+                # the same line inside an arm that is always taken: still an inclusion at that point
+                lines.append('#if true\n{\n    #include "%s"\n}' % inc["rel"].replace("\\", "\\\\"))
+                guarded.append(k)
+                if (i + 1) not in mute:
+                    lines.append("#d8 %d" % (16 * (k + 1) + i + 1))
+                continue
             lines.append('#include "%s"' % inc["rel"].replace("\\", "\\\\"))
             if (i + 1) not in mute:
                 lines.append("#d8 %d" % (16 * (k + 1) + i + 1))
@@ -207,6 +215,7 @@ def expand_family(ck, quick, rng, case0):
                        "rootname": chars(paths[0]), "code": -1, "signal": 0, "ok": ok,
                        "markers": [int(bits[i:i + 8], 2) for i in range(0, len(bits) - 7, 8)] if ok else []})
         info[case] = {"family": "expand", "graph": g, "root": paths[0], "files": j["files"], "ok": ok,
+                      "guarded": any("#if true" in t for t in j["files"].values()),
                       "panic": r.get("panic"), "printed": (r.get("printed") or "")[:300]}
         ck.nontrivial_add(("expand", len(g), ok, tuple(len(f["incs"]) for f in g), tuple(f["once"] for f in g)))
         if case % 400 == 0:
@@ -422,7 +431,8 @@ def expand_real_family(ck, quick, rng, case0):
             events.append({"ev": "expand", "case": case, "crash": False, "files": files, "root": 1,
                            "rootname": chars(rootname), "code": code, "signal": sig, "ok": ok, "markers": list(data)})
             info[case] = {"family": "expand-real", "graph": g, "command": "customasm %s -q -f binary -o out.bin" % rootname,
-                          "files": texts, "exit": code, "output": list(data)}
+                          "files": texts, "exit": code, "output": list(data),
+                          "guarded": any("#if true" in t for t in texts.values())}
             ck.nontrivial_add(("expand-real", len(g), ok, rootname.startswith("./"), tuple(f["once"] for f in g)))
             if case % 97 == 0:
                 ck.sample(info[case], limit=12)
@@ -468,6 +478,9 @@ def run_c14(ck):
     groups = {}
     for c in sorted(failed):
         for tag in sorted(set(failed[c])):
+            # (witness for the known finding F65: an #include line inside an #if arm)
+            if info[c].get("guarded"):
+                tag += ":include-inside-if"
             groups.setdefault((info[c]["family"], tag), []).append(c)
     by_case = {e["case"]: e for e in events}
     for (family, tag), cs in sorted(groups.items()):
